@@ -99,9 +99,9 @@ def pyInt16Body (cs : List Char) : Option Nat :=
 /-- `int(s, 16)` -/
 def pyInt16 (s : String) : Option Int :=
   match pyStrip s.toList with
-  | '-' :: cs => (pyInt16Body cs).map (fun n => -(n : Int))
-  | '+' :: cs => (pyInt16Body cs).map (fun n => (n : Int))
-  | cs => (pyInt16Body cs).map (fun n => (n : Int))
+  | '-' :: cs => Option.map (fun n : Nat => -(n : Int)) (pyInt16Body cs)
+  | '+' :: cs => Option.map (fun n : Nat => (n : Int)) (pyInt16Body cs)
+  | cs => Option.map (fun n : Nat => (n : Int)) (pyInt16Body cs)
 
 /-- `int(s)` (white space around the number is ignored) -/
 def pyInt10 (s : String) : Option Int := pyInt (String.ofList (pyStrip s.toList))
@@ -132,9 +132,8 @@ def h2b (s : String) : Option Bytes := unhexlify s.toList
 /-- `Key.__init__(secret_exponent=se, is_compressed=c)` -/
 def mkPrivateKey (ke : KeyEnv) (se : Int) (c : Bool) : Except Err KeyObj :=
   if se < 1 ∨ se ≥ ke.order then .error .invalidSecretExponent
-  else
-    let pub := ke.mulG se.toNat
-    if ke.containsPoint pub.1 pub.2 then .ok ⟨some se.toNat, pub, c⟩ else .error .invalidPublicPair
+  else if ke.containsPoint (ke.mulG se.toNat).1 (ke.mulG se.toNat).2 then .ok ⟨some se.toNat, ke.mulG se.toNat, c⟩
+  else .error .invalidPublicPair
 
 /-- `Key.__init__(public_pair=(x, y), is_compressed=c)` with integer coordinates -/
 def mkPublicKey (ke : KeyEnv) (x y : Int) (c : Bool) : Except Err KeyObj :=
@@ -142,12 +141,10 @@ def mkPublicKey (ke : KeyEnv) (x y : Int) (c : Bool) : Except Err KeyObj :=
 
 /-- `sec_to_public_pair(sec, generator)` (strict) for a 32-byte field -/
 def secToPublicPair (ke : KeyEnv) (sec : Bytes) : Except Err Pt :=
-  let x : Int := beNat (slice sec 1 33)
-  let sec0 := sec.take 1
-  if sec.length = 65 ∧ sec0 = [4] then .ok (x, (beNat (slice sec 33 65) : Int))
-  else if sec.length = 33 ∧ (sec0 = [2] ∨ sec0 = [3]) then
-    match ke.pointsForX x with
-    | some (even, odd) => .ok (if sec0 ≠ [2] then odd else even)
+  if sec.length = 65 ∧ sec.take 1 = [4] then .ok ((beNat (slice sec 1 33) : Int), (beNat (slice sec 33 65) : Int))
+  else if sec.length = 33 ∧ (sec.take 1 = [2] ∨ sec.take 1 = [3]) then
+    match ke.pointsForX (beNat (slice sec 1 33) : Int) with
+    | some (even, odd) => .ok (if sec.take 1 ≠ [2] then odd else even)
     | none => .error .noSuchPoint
   else .error .encodingError
 
@@ -219,22 +216,23 @@ def hwif (env : Env) (net : Network) (n : NodeObj) (asPrivate : Bool) : Except E
 
 /-! ## the parsers (`ParseAPI`) -/
 
-/-- `ParseAPI.wif` -/
+/-- `keys.private(se, is_compressed)` inside `try … except ValueError: return None` -/
+def wifKey (ke : KeyEnv) (blob : Bytes) (c : Bool) : POut :=
+  match mkPrivateKey ke (beNat blob) c with
+  | .ok k => .ok (some (.key k))
+  | .error .invalidSecretExponent => .ok none
+  | .error .invalidPublicPair => .ok none
+  | .error e => .error e
+
+/-- `ParseAPI.wif`: 33 bytes ending in `01` (compressed) or 32 bytes after the prefix -/
 def parseWif (env : Env) (ke : KeyEnv) (net : Network) (s : String) : POut :=
   match parseB58Hashed env net s, net.parseWif with
   | some data, some p =>
     if !isPrefixOf p data then .ok none
-    else
-      let body := data.drop p.length
-      let go (blob : Bytes) (c : Bool) : POut :=
-        match mkPrivateKey ke (beNat blob) c with
-        | .ok k => .ok (some (.key k))
-        | .error .invalidSecretExponent => .ok none      -- `except ValueError`
-        | .error .invalidPublicPair => .ok none
-        | .error e => .error e
-      if body.length = 33 ∧ body.drop 32 = [1] then go (body.take 32) true
-      else if body.length = 32 then go body false
-      else .ok none
+    else if (data.drop p.length).length = 33 ∧ (data.drop p.length).drop 32 = [1] then
+      wifKey ke ((data.drop p.length).take 32) true
+    else if (data.drop p.length).length = 32 then wifKey ke (data.drop p.length) false
+    else .ok none
   | _, _ => .ok none
 
 /-- `ParseAPI.secret_exponent` -/
@@ -249,41 +247,47 @@ def parseSecretExponent (ke : KeyEnv) (s : String) : POut :=
       | .error e => .error e
   | none => .ok none
 
+/-- the `even`/`odd` half of one round of `public_pair`: the point `points_for_x` gives, else the point so far -/
+def parityPoint (ke : KeyEnv) (v0 : Int) (s1 : String) (point : Option Pt) : Except Err (Option Pt) :=
+  if s1 = "even" ∨ s1 = "odd" then
+    match ke.pointsForX v0 with
+    | some (even, odd) => .ok (some (if s1 = "odd" then odd else even))
+    | none => .error .noSuchPoint
+  else .ok point
+
+/-- the explicit-`y` half of one round -/
+def explicitPoint (ke : KeyEnv) (v0 : Int) (s1 : String) (point : Option Pt) : Option Pt :=
+  match asNumber s1 with
+  | none => point
+  | some v1 =>
+    if ¬ (0 < v1 ∧ v1 < ke.p) then point
+    else if ke.containsPoint v0 v1 then some (v0, v1)
+    else point
+
 /-- one round of the `for c in ",/"` loop of `ParseAPI.public_pair`: the point found for this separator, if any;
-`.error` when `points_for_x` raises and the code does not catch it -/
+`.error` when `points_for_x` raises -/
 def publicPairStep (ke : KeyEnv) (s : String) (c : Char) (point : Option Pt) : Except Err (Option Pt) :=
   match splitOnce c s.toList with
   | none => .ok point
   | some (s0, s1) =>
-    let s0 := String.ofList s0
-    let s1 := String.ofList s1
-    match asNumber s0 with
+    match asNumber (String.ofList s0) with
     | none => .ok point
     | some v0 =>
       if ¬ (0 < v0 ∧ v0 < ke.p) then .ok point
       else
-        let afterParity : Except Err (Option Pt) :=
-          if s1 = "even" ∨ s1 = "odd" then
-            match ke.pointsForX v0 with
-            | some (even, odd) => .ok (some (if s1 = "odd" then odd else even))
-            | none => .error .noSuchPoint
-          else .ok point
-        match afterParity with
+        match parityPoint ke v0 (String.ofList s1) point with
         | .error e => .error e
-        | .ok point =>
-          match asNumber s1 with
-          | none => .ok point
-          | some v1 =>
-            if ¬ (0 < v1 ∧ v1 < ke.p) then .ok point
-            else if ke.containsPoint v0 v1 then .ok (some (v0, v1))
-            else .ok point
+        | .ok pt => .ok (explicitPoint ke v0 (String.ofList s1) pt)
+
+/-- the two rounds -/
+def publicPairPoint (ke : KeyEnv) (s : String) : Except Err (Option Pt) :=
+  match publicPairStep ke s ',' none with
+  | .error e => .error e
+  | .ok p1 => publicPairStep ke s '/' p1
 
 /-- `ParseAPI.public_pair` (a `ValueError` from the curve is turned into `None`) -/
 def parsePublicPair (ke : KeyEnv) (s : String) : POut :=
-  let r := do
-    let p1 ← publicPairStep ke s ',' none
-    publicPairStep ke s '/' p1
-  match r with
+  match publicPairPoint ke s with
   | .error .noSuchPoint => .ok none
   | .error .valueError => .ok none
   | .error e => .error e
@@ -295,36 +299,39 @@ def parsePublicPair (ke : KeyEnv) (s : String) : POut :=
     | .error .valueError => .ok none
     | .error e => .error e
 
+/-- the text after an optional `sec_prefix` -/
+def secBody (net : Network) (s : String) : String :=
+  match net.secPrefix with
+  | some (.inl p) =>
+    if p ≠ "" ∧ s.toList.take p.length = p.toList then String.ofList (s.toList.drop p.length) else s
+  | _ => s
+
 /-- `ParseAPI.sec`: an optional `sec_prefix` in front of the hex; every exception is swallowed -/
 def parseSec (ke : KeyEnv) (net : Network) (s : String) : POut :=
-  let body : String :=
-    match net.secPrefix with
-    | some (.inl p) =>
-      if p ≠ "" ∧ s.toList.take p.length = p.toList then String.ofList (s.toList.drop p.length) else s
-    | _ => s
-  match h2b body with
+  match h2b (secBody net s) with
   | none => .ok none
   | some sec =>
     match keyFromSec ke sec with
     | .ok k => .ok (some (.key k))
     | .error _ => .ok none
 
+/-- the key material of an extended-key blob: `00 || exponent` or a compressed SEC -/
+def deserializeKey (ke : KeyEnv) (data : Bytes) : Except Err KeyObj :=
+  if slice data 45 46 = [0] then mkPrivateKey ke (beNat (data.drop 46)) true
+  else
+    match secToPublicPair ke (data.drop 45) with
+    | .error e => .error e
+    | .ok pp => mkPublicKey ke pp.1 pp.2 true
+
 /-- `BIP32Node.deserialize(data)` on a 78-byte blob -/
 def deserialize (ke : KeyEnv) (kind : Nat) (data : Bytes) : Except Err NodeObj :=
   if (slice data 5 13).length ≠ 8 then .error .structError
   else
-    let fp := slice data 5 9
-    let idx := beNat (slice data 9 13)
-    let chain := slice data 13 45
-    let depth := match data[4]? with | some d => d.toNat | none => 0
-    let key : Except Err KeyObj :=
-      if slice data 45 46 = [0] then mkPrivateKey ke (beNat (data.drop 46)) true
-      else do
-        let pp ← secToPublicPair ke (data.drop 45)
-        mkPublicKey ke pp.1 pp.2 true
-    match key with
+    match deserializeKey ke data with
     | .error e => .error e
-    | .ok k => if chain.length ≠ 32 then .error .valueError else .ok ⟨kind, depth, fp, idx, chain, k⟩
+    | .ok k =>
+      if (slice data 13 45).length ≠ 32 then .error .valueError
+      else .ok ⟨kind, (match data[4]? with | some d => d.toNat | none => 0), slice data 5 9, beNat (slice data 9 13), slice data 13 45, k⟩
 
 def nodeParsePrefix (net : Network) (kind : Nat) (prv : Bool) : Option Bytes :=
   match kind, prv with
@@ -352,10 +359,12 @@ def parseBip (env : Env) (ke : KeyEnv) (net : Network) (kind : Nat) (s : String)
 
 /-- `BIP32Node.from_master_secret` -/
 def fromMasterSecret (ke : KeyEnv) (secret : Bytes) : Except Err NodeObj :=
-  let i64 := ke.hmacSha512 "Bitcoin seed".toUTF8.toList secret
-  match mkPrivateKey ke (beNat (i64.take 32)) true with
+  match mkPrivateKey ke (beNat ((ke.hmacSha512 "Bitcoin seed".toUTF8.toList secret).take 32)) true with
   | .error e => .error e
-  | .ok k => .ok ⟨32, 0, [0, 0, 0, 0], 0, i64.drop 32, k⟩
+  | .ok k => .ok ⟨32, 0, [0, 0, 0, 0], 0, (ke.hmacSha512 "Bitcoin seed".toUTF8.toList secret).drop 32, k⟩
+
+/-- the master secret of a `P:`/`H:` form -/
+def seedBytes (tag rest : String) : Option Bytes := if tag = "H" then h2b rest else some rest.toUTF8.toList
 
 /-- `ParseAPI.bip32_seed` (and `hd_seed`, the same thing); `pair[0] not in "HP"` is a substring test -/
 def parseBip32Seed (ke : KeyEnv) (s : String) : POut :=
@@ -364,8 +373,7 @@ def parseBip32Seed (ke : KeyEnv) (s : String) : POut :=
   | some (tag, rest) =>
     if ¬ (tag = "" ∨ tag = "H" ∨ tag = "P" ∨ tag = "HP") then .ok none
     else
-      let secret : Option Bytes := if tag = "H" then h2b rest else some rest.toUTF8.toList
-      match secret with
+      match seedBytes tag rest with
       | none => .ok none
       | some ms =>
         match fromMasterSecret ke ms with
